@@ -231,6 +231,15 @@ func limitProgs() []limitProg {
 		a.op(opcode.PUSH1)
 		a.jmp(opcode.JMP, l)
 	}))
+	add(mk("items/map-self-remove", "", 0, 0, 0, func(a *asm) { // m[0] = m, then removed through the last outside reference
+		a.op(opcode.NEWMAP, opcode.DUP, opcode.PUSH0, opcode.OVER, opcode.SETITEM, opcode.PUSH0, opcode.REMOVE)
+	}))
+	add(mk("items/array-self-remove", "", 0, 0, 0, func(a *asm) {
+		a.op(opcode.PUSH1, opcode.NEWARRAY, opcode.DUP, opcode.PUSH0, opcode.OVER, opcode.SETITEM, opcode.PUSH0, opcode.REMOVE)
+	}))
+	add(mk("items/map-self-clearitems", "", 0, 0, 0, func(a *asm) {
+		a.op(opcode.NEWMAP, opcode.DUP, opcode.PUSH0, opcode.OVER, opcode.SETITEM, opcode.CLEARITEMS)
+	}))
 	add(mk("items/reverse-clear-2046", "HALT", 2048, 0, 0, func(a *asm) {
 		a.pushInt(2046)
 		a.op(opcode.NEWARRAY, opcode.DUP, opcode.REVERSEITEMS, opcode.DUP, opcode.CLEARITEMS, opcode.CLEAR)
